@@ -53,6 +53,8 @@ func TestVP_C32_Manager(t *testing.T) {
 		unregisteredAt := map[*Connection]bool{} // connections known to be refused or torn down
 		var violations []string
 		staleNotes := 0
+		var accepted []*Connection
+		var reconnectInCallback func() // set by the teardown step: the peer reconnects while the callback runs
 		var M *Manager
 		cfg := DefaultManagerConfig(vpC32ID(0), net.Transport("M"))
 		cfg.KeepaliveInterval = time.Hour
@@ -66,6 +68,13 @@ func TestVP_C32_Manager(t *testing.T) {
 			// the agent-level check judges. Counted here.
 			if cur := M.GetPeer(c.RemoteID); cur != nil && cur != c {
 				staleNotes++
+			}
+			if f := reconnectInCallback; f != nil {
+				reconnectInCallback = nil
+				mu.Unlock()
+				f()
+				time.Sleep(300 * time.Microsecond)
+				mu.Lock()
 			}
 		}
 		cfg.OnFrame = func(c *Connection, f *protocol.Frame) {
@@ -81,6 +90,7 @@ func TestVP_C32_Manager(t *testing.T) {
 			c, err := M.Accept(ctx, pc)
 			if err == nil && c != nil {
 				mu.Lock()
+				accepted = append(accepted, c)
 				if M.GetPeer(c.RemoteID) != c {
 					unregisteredAt[c] = true
 				}
@@ -127,6 +137,38 @@ func TestVP_C32_Manager(t *testing.T) {
 					case <-c.Done():
 						// registered but closed: only acceptable while its teardown is in progress
 					default:
+					}
+				}
+			}
+			for _, c := range accepted {
+				remember(c)
+			}
+			for _, r := range rems {
+				rc := r.m.GetPeer(vpC32ID(0))
+				if rc == nil {
+					continue
+				}
+				select {
+				case <-rc.Done():
+					continue
+				default:
+				}
+				if M.GetPeer(r.id) == nil {
+					// give M's side a moment: the remote may have registered first
+					ok := false
+					for i := 0; i < 400 && !ok; i++ {
+						mu.Unlock()
+						time.Sleep(250 * time.Microsecond)
+						mu.Lock()
+						select {
+						case <-rc.Done():
+							ok = true
+						default:
+							ok = M.GetPeer(r.id) != nil
+						}
+					}
+					if !ok {
+						t.Fatalf("VPFAIL C32 peer %x holds an open connection to the manager, but the manager has no registration for it any more: the registration of the live connection was removed\n  history: %s", r.id[2], strings.Join(hist, "; "))
 					}
 				}
 			}
@@ -202,11 +244,41 @@ func TestVP_C32_Manager(t *testing.T) {
 				mu.Lock()
 				unregisteredAt[c] = true
 				mu.Unlock()
-				c.Close()
-				M.handleDisconnect(c, errors.New("keepalive timeout"))
-				if twice {
-					M.handleDisconnect(c, errors.New("read error"))
+				var rwg sync.WaitGroup
+				if cur == c && rapid.Bool().Draw(t, "peerReconnectsDuringCallback") {
+					var r *vpC32Remote
+					for _, x := range rems {
+						if x.id == c.RemoteID {
+							r = x
+						}
+					}
+					mu.Lock()
+					reconnectInCallback = func() {
+						rwg.Add(1)
+						go func() {
+							defer rwg.Done()
+							r.m.Disconnect(vpC32ID(0))
+							r.m.ConnectWithTransport(ctx, net.Transport(r.name), "M")
+						}()
+					}
+					mu.Unlock()
+					nt = true
 				}
+				c.Close()
+				if twice {
+					// the keepalive path and the read path report the same dead connection
+					var twg sync.WaitGroup
+					twg.Add(2)
+					go func() { defer twg.Done(); M.handleDisconnect(c, errors.New("keepalive timeout")) }()
+					go func() { defer twg.Done(); M.handleDisconnect(c, errors.New("read error")) }()
+					twg.Wait()
+				} else {
+					M.handleDisconnect(c, errors.New("keepalive timeout"))
+				}
+				rwg.Wait()
+				mu.Lock()
+				reconnectInCallback = nil
+				mu.Unlock()
 				if cur != nil && cur != c {
 					if now := M.GetPeer(c.RemoteID); now != cur {
 						t.Fatalf("VPFAIL C32 tearing down a connection that was not the registered one removed the registration of the live connection to peer %x\n  history: %s", c.RemoteID[2], strings.Join(hist, "; "))
